@@ -6,9 +6,9 @@ Inductive case :=
 (* stable phase: ready endpoints, "explicit subset?", forced cursor (key, value) if any, the upstream
    list of every pick, observed results (-1 = error) *)
 | CRr (ready : eplist) (explicit : bool) (force : option (eplist * Z)) (orders : list eplist) (obs : list Z)
-(* history with readiness / server changes: initial servers, ops, observed results
+(* history with readiness / server changes / re-Syncs: initial servers, initially disabled ones, ops, observed results
    (-1 error, -2 nothing to observe, else endpoint) *)
-| CHist (srv : eplist) (ops : list cop) (obs : list Z)
+| CHist (srv dis : eplist) (ops : list cop) (obs : list Z)
 (* concurrent pickers on an explicit subset, in phases: before each phase the readiness of the subset's
    endpoints is set (a new ready list = a new, not yet existing counter); per phase: ready endpoints, picks
    per goroutine, schedule; observed: trace (goroutine, pick completed?) and per-goroutine results *)
@@ -21,10 +21,10 @@ Definition agree_rr ready force orders obs : bool :=
   let cur := match force with Some (k, v) => [(k, v)] | None => [] end in
   list_eqb Z.eqb (map pres_code (snd (pops cur orders (fun e => zin e ready)))) obs.
 
-Definition agree_hist srv ops obs : bool :=
+Definition agree_hist srv dis ops obs : bool :=
   list_eqb Z.eqb
     (map (fun po => match fst po with OPick _ => pres_code (snd po) | _ => -2 end)
-         (combine ops (crun {| servers := srv; readyset := []; curs := [] |} ops)))
+         (combine ops (crun {| servers := srv; readyset := []; disabled := dis; curs := [] |} ops)))
     obs.
 
 Definition ze_eqb (a b : Z * Z) : bool := (fst a =? fst b) && (snd a =? snd b).
@@ -61,7 +61,7 @@ Definition eval (c : case) : list bool :=
         match force with None => unordered_ok eps orders obs | Some _ => true end;
         (if explicit then wrap_ok eps obs else true);
         true ]
-  | CHist srv ops obs => [ agree_hist srv ops obs; true; true; true; true; true ]
+  | CHist srv dis ops obs => [ agree_hist srv dis ops obs; true; true; true; true; true ]
   | CConc subset phases =>
       let '(a, o, s) := conc_walk subset [] phases in [ a; o; true; true; true; s ]
   end.
